@@ -13,7 +13,7 @@ func genC25(seed uint64) *Plan {
 	pr.MinPeers, pr.MaxPeers = 2, 4
 	pr.AddPathTXProb = 0.3
 	pr.ExportKinds = []string{"accept", "rewrite"}
-	pr.AggrChoices = []int64{100_000, 500_000, 1_000_000}
+	pr.AggrChoices = []int64{5000, 5000, 100_000, 1_000_000} // a fast ticker makes flushes coincide with teardowns
 	pr.HoldChoices = []uint16{90, 30}
 	pr.MinSteps, pr.MaxSteps = 3, 8
 	pr.W = map[string]int{"announce": 10, "withdraw": 3}
@@ -24,6 +24,20 @@ func genC25(seed uint64) *Plan {
 	g.plan.Sim.GateProb = pick(r, []float64{0, 0.2, 0.5, 1})
 	g.plan.Sim.Sticky = pick(r, []float64{0, 0.5, 0.8})
 	g.plan.Sim.RandomHandoff = r.Chance(0.5)
+	g.plan.Sim.Priority = g.plan.Sim.GateProb > 0 && r.Chance(0.5)
+	if g.plan.Sim.GateProb > 0 && r.Chance(0.7) {
+		// timers that are due within a short window fire together with whatever else happens then
+		// (an update sender's tick while a session is being torn down): their goroutines are
+		// interleaved by the gate scheduler instead of running one event after the other
+		g.plan.Sim.BatchInstant = true
+		g.plan.Sim.BatchWindowUS = pick(r, []int64{0, 6000, 20_000})
+		if g.plan.Params == nil {
+			g.plan.Params = map[string]int64{}
+		}
+		// the operations of a concurrent step take effect a moment later, as simulator events
+		// (otherwise they would be applied between two events and never meet a timer)
+		g.plan.Params["arrival_us"] = int64(100 + r.Intn(6000))
+	}
 	g.connectAll()
 	g.workload()
 	rounds := 2 + r.Intn(5)
